@@ -535,6 +535,7 @@ def run_property(mod, tier: str) -> int:
     checks = {s.name: s for s in mod.subs(tier)}
     out_lines: list[str] = []
     violations: list[Failure] = []
+    _PARTIAL["prop"], _PARTIAL["violations"] = prop, violations  # what the watchdog reports if a later sub-check never comes back
 
     # replay tier: stored cases of known / fixed findings run first
     for e in known:
@@ -675,6 +676,27 @@ def run_property(mod, tier: str) -> int:
         f"distinct_nontrivial={len(total.nontrivial)} discarded={total.discarded} wall={wall:.1f}s"
     )
     return 0
+
+
+_PARTIAL: dict = {"prop": None, "violations": []}
+
+
+def report_partial() -> bool:
+    """called by the watchdog when the wall budget is exceeded: violations that completed sub-checks had already established are
+    facts about the tree and are reported (exit 1); the sub-check that did not come back is merely inconclusive"""
+    fails = list(_PARTIAL.get("violations") or [])
+    if not fails:
+        return False
+    for f in fails:
+        try:
+            path = write_replay(_PARTIAL["prop"], f)
+        except Exception:  # noqa: BLE001
+            path = "(replay could not be written)"
+        print(f"VIOLATION property={_PARTIAL['prop']} replay={path}")
+        print(f"  signature={f.sig}")
+        print(f"  {f.msg}")
+    print("NOTE: a later sub-check then exceeded the wall budget and was abandoned (inconclusive on its own)", flush=True)
+    return True
 
 
 def run_replay(mod, path: str) -> int:
